@@ -33,3 +33,5 @@ Proof.
   unfold gen_pnum; rewrite gen_constructor_is_model; reflexivity.
 Qed.
 End T.
+Theorem gen_ufunc_route_is_model b : gen_ufunc_route b = ufunc_route_of b.
+Proof. reflexivity. Qed.
